@@ -22,6 +22,11 @@ META = {
           "width compatibility, canonicity, buffer capacity). The same spaces are driven through the real Compact encoders/decoders (exhaustive u8/u16 "
           "and <=2-byte strings; TLC-generated vectors; random) and every record is validated by TLC.",
           "DESIGN.md §6 C04", "TLA+ spec + exhaustive TLC model checking (8/16 bit) + TLC-generated vectors replayed + TLC trace validation"),
+ "C05": m("MC_Derive: for every definition of the bounded grammar that the specification calls valid, the layout round-trips, index bytes are injective, unknown "
+          "indices are rejected, every Encode entry point terminates (Mode=legacy reproduces the all-variants-skipped recursion repaired by a fix: commit). "
+          "TLC-enumerated definitions are compiled into the harness with Layout(def) as descriptor and go through the enc / round-trip / decode records; values "
+          "in skipped variants must encode to nothing through every entry point.",
+          "DESIGN.md §6 C05", "TLA+ spec + TLC model checking over type definitions + generated programs compiled and validated by TLC"),
  "C06": m("MC_Containers explores every history (<= 6 operations) of a ring-buffer deque, an ordered map and an offset bit store and shows the encoding "
           "is that of the logical content; recorded random histories on the real VecDeque/Vec/LinkedList/BTreeMap/BTreeSet/BinaryHeap/String/BitVec are "
           "validated by TLC after every operation against Enc(Logical(history)) (logical state recomputed from the logged operations, not from the container).",
@@ -47,6 +52,18 @@ META = {
           "DESIGN.md §6 C15", "TLA+ spec + TLC model checking of append histories + TLC trace validation"),
  "C16": m("One constructor per declared EncodeLike family (type-checked against the declaration); TLC validates that A's bytes are the encoding of the corresponding "
           "B value and that B's decoder reads them back.", "DESIGN.md §6 C16", "TLA+ spec + TLC trace validation of EncodeLike pairs"),
+ "C17": m("TLC enumerates enum definitions over all index sources with indices up to 300 (plus attribute-conflict, union, CompactAs and 256/257-variant cases), "
+          "computes Valid(def) and a minimally different valid twin; each program is compiled as its own target against /repo and TLC requires "
+          "compiled = Valid(def) and that the twin compiles.",
+          "DESIGN.md §6 C17", "TLA+ spec + TLC-enumerated programs compiled against the derive, verdicts validated by TLC"),
+ "C09": m("An allocator ledger records every request that raises the live total during decoding of hostile inputs (tampered counts up to 2^32-1 at every early position, "
+          "with payload, over known-length, unknown-length and shared-buffer inputs); TLC requires live <= A(ty)*(bytes delivered+1) + (1 MiB + node)*(depth+1), an "
+          "error-or-small-value outcome and a zero balance after the value is dropped.",
+          "DESIGN.md §6 C09", "TLA+ envelope + TLC trace validation of allocator ledgers"),
+ "C10": m("MC_Ledger: the guard/unwinding machine releases every constructed element exactly once for every size, fault position and fault kind (named guard variants "
+          "count_before / no_forget / no_guard yield counterexamples). Every initial state x container shape is emitted as a vector, the harness steers an instrumented "
+          "element into that fault in the real decoder, and TLC validates the construction/drop ledger and the allocator balance.",
+          "DESIGN.md §6 C10", "TLA+ ledger machine + TLC-enumerated fault vectors replayed + TLC trace validation"),
  "C18": m("skip must succeed exactly when Dec succeeds and advance exactly as far; DecodeLength::len must equal the specification's count.",
           "DESIGN.md §6 C18", "TLA+ spec + TLC trace validation of skip/len records"),
  "C19": m("Every CountedInput layer in a recorded stack must report exactly the bytes the bottom input delivered, after success and after failure.",
@@ -54,4 +71,4 @@ META = {
 }
 
 PENDING = "check under construction in this session; will be claimed once quiet on the unchanged tree"
-NOT_APPLICABLE = {k: PENDING for k in ["C05","C09","C10","C17","C20"]}
+NOT_APPLICABLE = {k: PENDING for k in ["C20"]}
